@@ -954,14 +954,16 @@ func leftBitshiftSmallInt[T SimpleInt](i SmallInt, other T) Value {
 	if other < 0 {
 		return SmallInt(0).ToValue()
 	}
-	complementaryShift := i >> (bitsize - other)
-	if other > bitsize || (i < 0 && complementaryShift != -1) || (i > 0 && complementaryShift != 0) {
-		// overflow
-		iBig := big.NewInt(int64(i))
-		iBig.Lsh(iBig, uint(other))
-		return Ref(ToElkBigInt(iBig))
+	if other <= bitsize {
+		complementaryShift := i >> (bitsize - other)
+		if !((i < 0 && complementaryShift != -1) || (i > 0 && complementaryShift != 0)) {
+			return (i << other).ToValue()
+		}
 	}
-	return (i << other).ToValue()
+	// overflow
+	iBig := big.NewInt(int64(i))
+	iBig.Lsh(iBig, uint(other))
+	return ToElkBigInt(iBig).Normalize()
 }
 
 func rightBitshiftSmallInt[T SimpleInt](i SmallInt, other T) Value {
